@@ -10,6 +10,7 @@ CONSTANTS
   Callers = {"c1", "c2", "c3"}
   Outcomes = {"ok", "fail", "cancel"}
   SplitAcquire = FALSE
+  SplitTransition = FALSE
   Defects = {}
   MaxNow = 7
   MaxCount = 3
